@@ -15,6 +15,7 @@ func init() {
 			ma := newMergeAnalysis(c)
 			ma.collectPairs()
 			ma.ruleR10(c)
+			ma.ruleR7f(c)
 			ma.ruleR11(c, "bc")
 			ma.ruleR12(c)
 			ruleR14(c)
@@ -22,6 +23,8 @@ func init() {
 			ruleO2(c)
 			ruleV4(c)
 			ma.ruleR14n(c)
+			ma.ruleR14m(c)
+			ma.ruleR8(c)
 		},
 		explanation: "Decides that the request object shown to plugins is kept in step with the combined result: every accepted write into the reply has a twin write of the same item and value into the request view (and vice versa); removed and re-set keys are dropped from the view before new entries are appended; lists in the view only grow by append; the result constructors keep the caller's request pointer (identity, not a copy) and only replace nil members by empty ones; the request methods hand that same request object to every plugin in one sequential loop; for update requests the committed resources are written back to the request exactly when the update targets the container being updated.",
 		notDecided: []string{
@@ -396,4 +399,41 @@ func fieldTypeOf(m *Module, typ, field string) types.Type {
 		}
 	}
 	return nil
+}
+
+// ruleR14m: accumulated maps are only created when absent.
+func (ma *mergeAnalysis) ruleR14m(c *Ctx) {
+	m := c.M
+	c.rule("R14m", "maps are created only when absent: every store of a newly made map into the reply, the request view, the update accumulator or a staged copy is controlled by the nil test of that very member, so entries collected from the request and from earlier plugins are never discarded", 1)
+	for _, mf := range ma.fns {
+		ord := map[string]int{}
+		for _, w := range mf.writes {
+			if w.kind != "store" {
+				continue
+			}
+			if _, isMake := w.val.(*ssa.MakeMap); !isMake {
+				continue
+			}
+			base := mf.fn.Name() + "/" + w.space + "/" + w.target.PathString()
+			ord[base]++
+			key := base
+			if ord[base] > 1 {
+				key = fmt.Sprintf("%s#%d", base, ord[base])
+			}
+			okNil := false
+			for _, cd := range controls(w.block()) {
+				cd = normCond(cd)
+				bo, ok := cd.V.(*ssa.BinOp)
+				if !ok || !isNilConst(bo.Y) || !((bo.Op == token.EQL && cd.Pol) || (bo.Op == token.NEQ && !cd.Pol)) {
+					continue
+				}
+				a := m.ap(bo.X)
+				if a.Root == w.target.Root && a.PathString() == w.target.PathString() {
+					okNil = true
+				}
+			}
+			c.ok("R14m", key, w.instr.Pos(), okNil, fmt.Sprintf("%s creates the map %s only when it is nil", mf.fn.Name(), w.target.PathString()),
+				"a new map is stored without the member having been found nil: the keys already there (from the runtime's request or set by earlier plugins) are dropped from what later plugins see and from the result")
+		}
+	}
 }
